@@ -548,3 +548,86 @@ def sample_obligations(built, pid, limit=6):
             picked.append(o)
             seen.add(o["function"])
     return (picked + [o for o in out if o not in picked])[:limit]
+
+
+# ---------------------------------------------------------------------------------------------
+# contract links: a stand-in used in one unit must carry (a subset of) the contract PROVED for the real function elsewhere
+def fn_clauses(text, impl_marker, fn_name):
+    """-> {'requires': [clause strings], 'ensures': [...]} of `fn fn_name` following `impl_marker` in text (token-normalised)"""
+    k = text.find(impl_marker)
+    if k < 0:
+        return None
+    m = re.search(r"\bfn\s+" + re.escape(fn_name) + r"\b", text[k:])
+    if not m:
+        return None
+    toks = lex.tokenize(text[k + m.start():])
+    toks = [t for t in toks if not lex.is_label(t)]
+    out = {"requires": [], "ensures": []}
+    i = 0
+    # skip to end of parameter list
+    while toks[i] != "(":
+        i += 1
+    i = lex.match_close(toks, i) + 1
+    cur = None
+    clause = []
+    depth = 0
+    while i < len(toks):
+        t = toks[i]
+        if depth == 0 and t in ("requires", "ensures", "decreases", "{"):
+            if cur in out and clause:
+                out[cur].append(" ".join(clause))
+            clause = []
+            if t == "{":
+                break
+            cur = t
+            i += 1
+            continue
+        if t in ("(", "[", "{"):
+            depth += 1
+        elif t in (")", "]", "}"):
+            depth -= 1
+        if depth == 0 and t == ",":
+            if cur in out and clause:
+                out[cur].append(" ".join(clause))
+            clause = []
+        else:
+            clause.append(t)
+        i += 1
+    return out
+
+
+LINKS = [
+    # (stub file, impl marker, fn, proved file, impl marker, fn, normalisation of the stub text)
+    ("inc/world_lookup_standin.rs", "impl TableLookup", "recv_response", "inc/lookup_body.rs", "impl TableLookup", "recv_response", {}),
+    ("inc/world_lookup_standin.rs", "impl TableLookup", "recv_timeout", "inc/lookup_body.rs", "impl TableLookup", "recv_timeout", {}),
+    ("inc/world_lookup_standin.rs", "impl TableLookup", "recv_finished", "inc/lookup_body.rs", "impl TableLookup", "recv_finished", {}),
+    ("inc/world_core.rs", "impl<T> Timer<T>", "schedule_in", "inc/timer_body.rs", "impl<T> Timer<T>", "schedule_in", {"pending @": "pending ( )", "key . deadline . t as int == tclock ( ) + dur_nanos ( deadline )": "key . deadline . t as int == tclock ( ) + dur_nanos ( deadline )"}),
+    ("inc/world_core.rs", "impl<T> Timer<T>", "cancel", "inc/timer_body.rs", "impl<T> Timer<T>", "cancel", {"pending @": "pending ( )"}),
+]
+
+
+def check_links():
+    """-> list of problems (empty = every stand-in clause is a proved clause and no proved precondition is dropped,
+    except preconditions listed as assumed)"""
+    problems = []
+    assumed_pre = {"old ( self ) . next_id < u64 :: MAX"}   # ASSUMED: fewer than 2^64 timeouts (documented)
+    for sf, sm, fn, pf, pm, pfn, norm in LINKS:
+        st = open(os.path.join(CONTRACTS, sf)).read()
+        pt = open(os.path.join(CONTRACTS, pf)).read()
+        a, b = fn_clauses(st, sm, fn), fn_clauses(pt, pm, pfn)
+        if a is None or b is None:
+            problems.append("link %s::%s: function not found" % (sf, fn))
+            continue
+        def nz(c):
+            for x, y in norm.items():
+                c = c.replace(x, y)
+            return c
+        proved = set(b["ensures"])
+        for c in a["ensures"]:
+            if nz(c) not in proved:
+                problems.append("stand-in %s::%s ensures `%s` which is not a clause proved in %s" % (sf, fn, c[:90], pf))
+        have = set(nz(c) for c in a["requires"])
+        for c in b["requires"]:
+            if c not in have and c not in assumed_pre:
+                problems.append("stand-in %s::%s drops the proved precondition `%s`" % (sf, fn, c[:90]))
+    return problems
